@@ -456,6 +456,13 @@ def _bcj_dec_term(a, m):
 
 
 XCHECK["bcj_dec"] = ("Filter.Bcj Filter.BcjStream", _bcj_dec_term)
+def _fl(s):
+    return ("true" if s[:1] == "c" else "false") + " " + ("true" if s[1:2] == "o" else "false")
+
+
+# area twins (C14/C15): the bounds models of the unsafe fast paths
+XCHECK["xmatch"] = ("Arith.UnsafeBounds", _xc_out("z", lambda a: f"extend_match {_fl(a[5])} {_zl(a[0])} {_z(a[1])} {_z(a[2])} {_z(a[3])} {_z(a[4])}"))
+XCHECK["freject"] = ("Arith.UnsafeBounds", _xc_out("z", lambda a: f"match_len_fast_reject {_fl(a[4])} {_zl(a[0])} {_z(a[1])} {_z(a[2])} {_z(a[3])}"))
 _DEC = "Codec.Lzma1 Codec.Lzma2Dec Codec.XCheckDec"
 XCHECK["lzma2"] = (_DEC, _rd("x_lzma2", lambda a: f"lzma2_new {_zl(a[2])} {_z(a[0])} {_pre(a[1])}", 3))
 XCHECK["lzma1_hdr"] = (_DEC, _rd("x_lzma1", lambda a: f"lzma1_new_mem_limit {_zl(a[1])} {_z(a[0])} None", 2))
